@@ -113,6 +113,22 @@ def outShape : Shape α → String
   | .convexPolyhedron vs f => join ["i8", outV3s vs, outFaces f]
   | .spheropolyhedron vs r => join ["i9", outV3s vs, Out.sc r]
 
+def outTok : Tok α → String
+  | .name n => join ["i0", outStr n]
+  | .lpar => "i1" | .rpar => "i2" | .lbr => "i3" | .rbr => "i4" | .comma => "i5" | .eq => "i6" | .minus => "i7"
+  | .num x => join ["i8", Out.sc x]
+  | .int n => join ["i9", Out.int (Int.ofNat n)]
+
+def rdTok (c : Ctx) : Rd (Tok α) := do
+  let tag ← Rd.nat c
+  match tag with
+  | 0 => do let n ← rdStr c; pure (.name n)
+  | 1 => pure .lpar | 2 => pure .rpar | 3 => pure .lbr | 4 => pure .rbr | 5 => pure .comma | 6 => pure .eq
+  | 7 => pure .minus
+  | 8 => do let x ← Rd.sc c; pure (.num x)
+  | 9 => do let n ← Rd.nat c; pure (.int n)
+  | _ => throw s!"bad token tag {tag}"
+
 def outExcept {β : Type} (f : β → String) : Except String β → String
   | .ok x => f x
   | .error k => "E:" ++ k
@@ -176,6 +192,86 @@ def run (α : Type) [Scalar α] [Codec α] (op : String) (c : Ctx) : Option (Rd 
           scalar := fun n _ => look n, tensor := fun _ => tensor,
           scalarC := fun n _ => look n, tensorC := fun _ => tensor }
       pure (outExcept (fun r => join [outDict r.1, outShape r.2]) (toHoomdRaw M s))
+  | "c19.reprtext" => some do
+      -- in: shape ; out: n tok*   (`repr(shape)` as tokens; the float classifier is IEEE's: nan = not equal to
+      -- itself, inf = non-zero fixed point of doubling, sign bit via 1/x for zeros)
+      let s : Shape α ← rdShape c
+      let nk : NumFmt α := fun x =>
+        if !(Scalar.eqb x x) then .nan
+        else
+          let neg : Bool := decide (x < Scalar.lit 0) ||
+            (Scalar.eqb x (Scalar.lit 0) && decide (Scalar.lit 1 / x < Scalar.lit 0))
+          if Scalar.eqb x (x + x) && !(Scalar.eqb x (Scalar.lit 0)) then .inf neg else .fin neg
+      let ts := reprTokens nk s
+      pure (join (Out.int ts.length :: ts.map outTok))
+  | "c19.evaltext" => some do
+      -- in: n tok* ext ; out: shape | E:kind   (`eval(text, {"coxeter": coxeter})`)
+      let ts : List (Tok α) ← Rd.list c (rdTok c)
+      let E : Ext α ← rdExt c
+      pure (outExcept outShape (evalText E ts))
+  | "c19.hoomdobj" => some do
+      -- `to_hoomd` TWICE in a row on an object with its caches, getters = the measure models.
+      -- in: kind ; 0 ConvexPolyhedron: verts simplices faces centroid(3) volume snormals
+      --            1 Polyhedron: verts faces tri eqs(list of nx ny nz d)
+      --            2 Polygon: verts normal(3) R(9) R2(9)
+      --            3 ConvexSpheropolyhedron: as 0, then r and the value of the rounded volume getter
+      -- out: dict1 state1 dict2 state2 | E:kind   (state = verts + caches, in the input layout)
+      let kind ← Rd.nat c
+      let rdTriples : Rd (List (Nat × Nat × Nat)) :=
+        Rd.list c (do let i ← Rd.nat c; let j ← Rd.nat c; let k ← Rd.nat c; pure (i, j, k))
+      let rdCP : Rd (CPObj α) := do
+        let vs ← Rd.list c (Rd.v3 c)
+        let simp ← rdTriples
+        let faces ← Rd.list c (Rd.list c (Rd.nat c))
+        let cen ← Rd.v3 c
+        let vol ← Rd.sc c
+        let sn ← Rd.list c (Rd.v3 c)
+        pure ⟨vs, simp, faces, cen, vol, sn⟩
+      let outCP : CPObj α → String := fun o =>
+        join [outV3s o.verts, Out.v3 o.centroid, Out.sc o.volume, outV3s o.snormals]
+      match kind with
+      | 0 => do
+          let o ← rdCP
+          pure (outExcept (fun (r : (Dict α × CPObj α) × (Dict α × CPObj α)) =>
+              join [outDict (resolve ⟨r.1.2.verts, r.1.2.centroid⟩ r.1.1), outCP r.1.2,
+                    outDict (resolve ⟨r.2.2.verts, r.2.2.centroid⟩ r.2.1), outCP r.2.2])
+            (do let a ← o.toHoomd; let b ← a.2.toHoomd; pure (a, b)))
+      | 3 => do
+          let o ← rdCP
+          let r : α ← Rd.sc c
+          let v : α ← Rd.sc c
+          pure (outExcept (fun (r : (Dict α × CPObj α) × (Dict α × CPObj α)) =>
+              join [outDict (resolve ⟨r.1.2.verts, r.1.2.centroid⟩ r.1.1), outCP r.1.2,
+                    outDict (resolve ⟨r.2.2.verts, r.2.2.centroid⟩ r.2.1), outCP r.2.2])
+            (do let a ← CPObj.spheroToHoomd (fun _ _ => v) r o
+                let b ← CPObj.spheroToHoomd (fun _ _ => v) r a.2
+                pure (a, b)))
+      | 1 => do
+          let vs ← Rd.list c (Rd.v3 c)
+          let faces ← Rd.list c (Rd.list c (Rd.nat c))
+          let tri ← rdTriples
+          let eqs ← Rd.list c (do let n : V3 α ← Rd.v3 c; let d : α ← Rd.sc c; pure (n, d))
+          let o : PHObj α := ⟨vs, faces, tri, eqs⟩
+          let outPH : PHObj α → String := fun o =>
+            join [outV3s o.verts, join (Out.int o.eqs.length :: o.eqs.map fun e => join [Out.v3 e.1, Out.sc e.2])]
+          pure (outExcept (fun (r : (Dict α × PHObj α) × (Dict α × PHObj α)) =>
+              join [outDict (resolve ⟨r.1.2.verts, V3.zero⟩ r.1.1), outPH r.1.2,
+                    outDict (resolve ⟨r.2.2.verts, V3.zero⟩ r.2.1), outPH r.2.2])
+            (do let a ← o.toHoomd; let b ← a.2.toHoomd; pure (a, b)))
+      | 2 => do
+          let vs ← Rd.list c (Rd.v3 c)
+          let n : V3 α ← Rd.v3 c
+          let rdM3 : Rd (M3 α) := do
+            let a ← Rd.v3 c; let b ← Rd.v3 c; let d ← Rd.v3 c
+            pure ⟨a.x, a.y, a.z, b.x, b.y, b.z, d.x, d.y, d.z⟩
+          let R ← rdM3
+          let R2 ← rdM3
+          let M := measPolygon n R R2
+          pure (outExcept (fun (r : (Dict α × PState α) × (Dict α × PState α)) =>
+              join [outDict (resolve r.1.2 r.1.1), outV3s r.1.2.verts,
+                    outDict (resolve r.2.2 r.2.1), outV3s r.2.2.verts])
+            (do let a ← polygonToHoomd M ⟨vs, V3.zero⟩; let b ← polygonToHoomd M a.2; pure (a, b)))
+      | _ => throw s!"bad object kind {kind}"
   | _ => none
 
 end OpsC19
